@@ -28,8 +28,13 @@ def generate(ctx):
     n = 400 if ctx.tier == "quick" else 5000
     cases = []
     for i in range(n):
-        g = cfglib.rand_cfg(ctx.rng, names="plain" if ctx.rng.random() < 0.85 else "adv")
-        cases.append({"op": OPS[i % len(OPS)], "g": g, "maxlen": 4 if ctx.tier == "quick" else 5,
+        if i % 10 == 3:     # variables that already carry the names to_normal_form generates (gaps in the numbering, all first names taken, ...)
+            g = cfglib.rand_cfg(ctx.rng, profile="cnfnames")
+            op = "to_normal_form"
+        else:
+            g = cfglib.rand_cfg(ctx.rng, names="plain" if ctx.rng.random() < 0.85 else "adv")
+            op = OPS[i % len(OPS)]
+        cases.append({"op": op, "g": g, "maxlen": 4 if ctx.tier == "quick" else 5,
                       "warm": ctx.rng.choice([None, None, ["is_empty"], ["get_nullable_symbols"], ["to_normal_form"]])})
     return cases
 
